@@ -44,7 +44,7 @@ def baselines(run, rng):
 def body(run):
     rng = random.Random(run.seed)
     T = run.thorough()
-    st = Q.design(PID, ["MC_QL_cancel.cfg", "MC_QL_live.cfg"] + (["MC_QL_select.cfg"] if T else []))
+    st = Q.design(PID, ["MC_QL_stall.cfg", "MC_QL_live.cfg"] + (["MC_QL_select.cfg", "MC_QL_live_stall.cfg"] if T else []))
     drv = V.go_build(PID, "drv")
     base = baselines(run, rng)
     blines, bstats = Q.run_scenarios(PID, drv, base, name="c10-base")
@@ -70,6 +70,18 @@ def body(run):
         for ir in (0, 1):
             for comp in ("disabled", "lz4"):
                 scs.append(Q.scenario("c10-%d" % (len(scs) + 1), Q.cfg("stream", Q.S("hdr", "eos"), plan=pl, init_rows=ir), compression=comp))
+    # the peer stops reading (writes block) before a cancellation: the cancel-watch must still get the sender out
+    for r in runs[:: (1 if T else 3)]:
+        begin = json.loads(r[0])
+        ex = Q.executed_sched(r[1:]).rstrip("C")
+        c = dict(begin["cfg"])
+        c.pop("wbreak", None)
+        for p in range(0, min(len(ex), 12) + 1, 2):
+            scs.append(Q.scenario("c10-%d" % (len(scs) + 1), c, sched=ex[:p] + "Z" + "SSSS" + "C", compression=begin["compression"], rev=begin["rev"]))
+            scs.append(Q.scenario("c10-%d" % (len(scs) + 1), c, sched="Z" + ex[:p] + "C" + "SS", compression=begin["compression"], rev=begin["rev"]))
+    behs, _ = Q.tlc_behaviours(PID, "Gen_QL_stall.cfg", 3000 if T else 300, run.seed + 7)
+    for c, sched in behs:
+        scs.append(Q.scenario("c10-%d" % (len(scs) + 1), Q.from_tlc_cfg(c), sched=sched, compression=rng.choice(["disabled", "lz4"])))
     # model-generated behaviours with cancellation
     behs, _ = Q.tlc_behaviours(PID, "Gen_QL_cancel.cfg", 4000 if T else 500, run.seed)
     for c, sched in behs:
